@@ -561,6 +561,69 @@ class Explorer(object):
         self._edge_lit = {}
         self.immune = frozenset(program.wildcard_immune(func.owner_cls)) if func.owner_cls is not None else frozenset()
 
+    def _rescue(self, fs, written, after):
+        """facts about a compound term that mentions an overwritten value X survive when X had a surviving equal
+        partner P: `end == X + n` with `X == P` becomes `end == P + n` (P is what X was before the write)"""
+        wild = 'A:*' in written
+        immune = self.immune
+
+        def dead(t):
+            return _dead(t.deps, written, wild, immune)
+        partner = {}
+        for l in fs:
+            if l[0] == 'eq':
+                for a, b in ((l[1], l[2]), (l[2], l[1])):
+                    if dead(a) and not dead(b) and not b.volatile and (b.node is not None or b.const is not None) and a.key not in partner:
+                        partner[a.key] = b
+        if not partner:
+            return after
+        tb = self.tb
+        import copy
+
+        class Sub(ast.NodeTransformer):
+            def __init__(self):
+                self.changed = False
+
+            def visit(self, n):
+                if isinstance(n, ast.expr) and not isinstance(n, (ast.Constant,)):
+                    try:
+                        k = tb.term(n).key
+                    except AnalysisError:
+                        k = None
+                    p_ = partner.get(k)
+                    if p_ is not None:
+                        self.changed = True
+                        return copy.deepcopy(p_.node) if p_.node is not None else ast.Constant(value=p_.const[0])
+                return self.generic_visit(n)
+        extra = []
+        for l in fs:
+            if l in after or l[0] not in ('eq', 'le', 'lt', 'ne'):
+                continue
+            sides = [l[1], l[2]]
+            ok = True
+            for i in (0, 1):
+                t = sides[i]
+                if not dead(t):
+                    continue
+                if t.node is None or t.volatile:
+                    ok = False
+                    break
+                sub = Sub()
+                new = sub.generic_visit(copy.deepcopy(t.node))      # strict sub-terms only
+                if not sub.changed:
+                    ok = False
+                    break
+                nt = tb.term(new)
+                if dead(nt) or nt.volatile:
+                    ok = False
+                    break
+                sides[i] = nt
+            if ok and sides[0].key != sides[1].key:
+                extra.append((l[0], sides[0], sides[1]))
+        if extra:
+            return frozenset(after | set(extra))
+        return after
+
     def edge_literal(self, node, pol):
         k = (node.id, pol)
         if k not in self._edge_lit:
@@ -594,6 +657,9 @@ class Explorer(object):
             node = cfg.nodes[nid]
             written, gens = self.eff.of(node)
             after = kill(fs, written, self.immune)
+            if written and after is not fs and not any(isinstance(p_, (ast.For, ast.While)) for p_ in node.parents):
+                # (not inside loops: substituted terms would grow with every iteration)
+                after = self._rescue(fs, written, after)
             inc = self.eff.increment_of(node)
             if inc is not None:
                 # x += e / x = x + e: what was known to equal x before now equals x - e, i.e. x == t + e
